@@ -13,6 +13,17 @@ theorem clearLru_map_idkey {ns : List Node} {ev : List Nat} :
   unfold clearLru; simp only [List.map_map]; apply List.map_congr_left; intro n _
   simp only [Function.comp]; split <;> rfl
 
+/-- A `callFinalizer` through a stale pointer changes ghost fields only. -/
+theorem execFinStale_cases {s s' : Shared} {id : Nat} {f : Bool} {push : List Instr} {evs : List Ev}
+    (h : execFinStale s id f = some (s', push, evs)) :
+    ∃ st dd, s' = { s with bug := true, stale := st, dead := dd } ∧ push = [] := by
+  unfold execFinStale at h
+  split at h
+  · simp only [Option.some.injEq, Prod.mk.injEq] at h
+    exact ⟨s.stale, s.dead, h.1.symm, h.2.1.symm⟩
+  · simp only [Option.some.injEq, Prod.mk.injEq] at h
+    exact ⟨true, _, h.1.symm, h.2.1.symm⟩
+
 /-- Unfold `exec` for the instruction at hand, split every branch, and substitute the result. -/
 syntax "exec_split " ident : tactic
 macro_rules
@@ -21,7 +32,8 @@ macro_rules
         execDelz, execUnref, execFin, execCloseLock] at $he:ident
       repeat' (split at $he:ident)
       all_goals (try (simp only [Option.some.injEq, Prod.mk.injEq, reduceCtorEq] at $he:ident))
-      all_goals (try (obtain ⟨h1, h2, h3⟩ := $he:ident; subst h1; subst h2; subst h3))))
+      all_goals (try (obtain ⟨h1, h2, h3⟩ := $he:ident; subst h1; subst h2; subst h3))
+      all_goals (try (obtain ⟨st, dd, h1, h2⟩ := execFinStale_cases $he:ident; subst h1; subst h2))))
 
 /-- How one instruction changes the node list, as far as ids and keys are concerned. -/
 theorem exec_nodes_shape {sh sh' : Shared} {i : Instr} {push : List Instr} {evs : List Ev}
@@ -126,11 +138,13 @@ structure InvP (g : Bool) (sh : Shared) (P : List Instr) (log : List Ev) : Prop 
   zr : g = true → sh.closed = true → sh.forced = false → ∀ i ∈ P, ∀ id, zeroRef i = some id →
         ∀ n ∈ sh.nodes, n.id = id → n.ref ≤ 0
 
-/-- Uniqueness of values and delFuncs over the log, the nodes and the pending instructions. -/
+/-- Uniqueness of values and delFuncs over the log, the nodes and the pending instructions.  The delFunc part
+holds as long as no `callFinalizer` went through a stale pointer (`stale`; impossible in the guarded system). -/
 structure LogOK (sh : Shared) (P : List Instr) (log : List Ev) : Prop where
   vals : (log.filterMap finVal ++ sh.nodes.filterMap (·.value)).Nodup ∧
         ∀ v ∈ log.filterMap finVal ++ sh.nodes.filterMap (·.value), v < sh.nextVal
-  dels : (log.filterMap delId ++ sh.nodes.flatMap (·.delFuncs) ++ P.flatMap delOf).Nodup ∧
+  dels : sh.stale = false →
+        (log.filterMap delId ++ sh.nodes.flatMap (·.delFuncs) ++ P.flatMap delOf).Nodup ∧
         ∀ d ∈ log.filterMap delId ++ sh.nodes.flatMap (·.delFuncs) ++ P.flatMap delOf, d < sh.nextDel
 
 /-! ### ids and keys -/
